@@ -17,7 +17,7 @@ template <typename TArgs>
 FFSM2_CONSTEXPR(11)
 CoreT<TArgs>::CoreT(PureContext&& context_
 				  FFSM2_IF_LOG_INTERFACE(, Logger* const logger_)) noexcept
-	: context{move(context_)}
+	: context{::ffsm2::move(context_)}
 	FFSM2_IF_LOG_INTERFACE(, logger{logger_})
 {}
 
@@ -39,12 +39,12 @@ CoreT<TArgs>::CoreT(const CoreT& other) noexcept
 template <typename TArgs>
 FFSM2_CONSTEXPR(11)
 CoreT<TArgs>::CoreT(CoreT&& other) noexcept
-	: FFSM2_IF_TRANSITION_HISTORY(previousTransition{move(other.previousTransition)},)
-	  context {forward<Context>(other.context)}
-	, registry{move(other.registry)}
-	, request {move(other.request )}
-	FFSM2_IF_PLANS			   (, planData			 {move(other.planData			)})
-	FFSM2_IF_LOG_INTERFACE	   (, logger			 {move(other.logger				)})
+	: FFSM2_IF_TRANSITION_HISTORY(previousTransition{::ffsm2::move(other.previousTransition)},)
+	  context {::ffsm2::forward<Context>(other.context)}
+	, registry{::ffsm2::move(other.registry)}
+	, request {::ffsm2::move(other.request )}
+	FFSM2_IF_PLANS			   (, planData			 {::ffsm2::move(other.planData			)})
+	FFSM2_IF_LOG_INTERFACE	   (, logger			 {::ffsm2::move(other.logger				)})
 {}
 
 ////////////////////////////////////////////////////////////////////////////////
